@@ -22,6 +22,18 @@ CLAIMED = {
    text="Kernel-checked theorems, for ARBITRARY call results (hence every directory population, fault and interference): descriptor peak and residual of every operation (get 1, or 3 while a checker compares; touch/set/put 1; ensure/get_or_update 2, 3 with a checker; maintenance 1; only the returned handle stays open), by compositional 'fd triples' over the program terms; call budgets of get/touch/set/put that depend on the configuration only while no maintenance is requested, with no directory listing; no lock in the call vocabulary. Tie: canonical call-trace equality model vs implementation over op x front-end x depth x directory sizes {0,10,100,600/2000}, and the property's own monitors on the implementation's traces (count identical across sizes, no opendir, <=2 opens per directory, peak/residual cross-checked with /proc/self/fd, lock calls fail the run).",
    ref="DESIGN.md section 6 C20", technique="Rocq proof (weakest preconditions of program trees w.r.t. trace monitors, for all environment responses) + trace correspondence through an LD_PRELOAD interposer",
    note="Trusted: Coq kernel, extraction, shim/harness/trace canonicaliser; callbacks are assumed not to leak or hold descriptors; memory use is not modelled. Finding F5 (three descriptors during a reprieving maintenance under ensure) was reproduced by this check and repaired by fix commit c8b1352; the pinned behaviour is kept as prune_pinned with C20_peak_refuted_pinned."),
+ "C13": dict(
+   text="An abstract specification of the stack (Spec/StackSpec.v: returned value, write-cache content afterwards, hit kind shown to the judge, checker comparisons — no filesystem in it) and a kernel-checked sweep proving that the filesystem-level model equals it on the property's entire configuration matrix (700 configurations x 16 operations; the matrix is the property's quantifier, bounds in the statement), plus general lemmas about the specification. Tie: the same matrix (and deeper stacks in the thorough tier) run on the implementation under the interposer: results, directory snapshots and canonical call traces equal to the extracted model's, and the implementation's outcome judged directly against the extracted specification.",
+   ref="DESIGN.md section 6 C13", technique="Rocq proof by exhaustive kernel computation over the finite configuration matrix (forallb_forall) + refinement to an abstract spec + model/implementation trace correspondence",
+   note="Trusted: Coq kernel (vm_compute), extraction, shim/harness/canonicaliser. Finding F3 (Promote skipped when checker + populate NotFound) was reproduced by this check on the pinned tree and repaired by fix commit 85854e1."),
+ "C14": dict(
+   text="Checker invocations are observable in the model (ghost mark with both contents) and part of the abstract specification; the sweep proves model = specification, comparisons included and in order, on the whole matrix with checker in {none, byte-equality, panicking, counting}; general lemmas for stacks of any depth: which pairs are compared, byte-equality succeeds iff every comparison is an equality, no checker => no comparison. Tie: matrix on the implementation with a counting checker recording the contents it was handed.",
+   ref="DESIGN.md section 6 C14", technique="Rocq proof by exhaustive kernel computation over the finite matrix + lemmas on the abstract spec + model/implementation correspondence",
+   note="The literal 'first copy against every other copy' is realised as a chain through the first read-only copy (write copy ~ first read-only copy ~ each later copy); equivalent for equivalence-relation checkers, stated precisely in C14_lookup_comparisons."),
+ "C19": dict(
+   text="Kernel-checked sweep over the C13/C14 matrix with a judge and a checker that read the files: every returned handle is at offset 0 and read-only (the documented exception, proved as such: the throw-away read-write file when there is no write cache), every visible entry has no write bit; library-published entries have mode 0444 because the mode is set on the descriptor. Tie: matrix x umask {000,022,077} on the implementation: F_GETFL and SEEK_CUR of every returned handle, st_mode of every visible entry.",
+   ref="DESIGN.md section 6 C19", technique="Rocq proof by exhaustive kernel computation over the finite matrix + model/implementation correspondence",
+   note="Scoping decision stated in DESIGN.md: the throw-away handle served when nothing is cached is not a cache entry."),
 }
 
 checks, na = [], []
